@@ -1,6 +1,6 @@
 (** C06 — Indicator signals fire exactly under their documented conditions. *)
 From Yata Require Import Base.Prelude Base.Num Base.NumR Core.Window Core.Candle Core.Action
-  Spec.Hist Spec.MethodDefs Spec.IndicatorDefs Methods.Basic Methods.Select Indicators.Common Indicators.Set1 Indicators.Set2 Indicators.Set3 Indicators.Set4 Indicators.Set5 Proofs.Detectors Proofs.SignalProofs Proofs.SignalProofs2 Proofs.SignalProofs3 Proofs.SignalProofs4 Proofs.SignalProofs5 Proofs.SignalProofs6 Proofs.SignalProofs7 Proofs.Selection Proofs.MAProofs.
+  Spec.Hist Spec.MethodDefs Spec.IndicatorDefs Methods.Basic Methods.Select Indicators.Common Indicators.Set1 Indicators.Set2 Indicators.Set3 Indicators.Set4 Indicators.Set5 Proofs.Detectors Proofs.SignalProofs Proofs.SignalProofs2 Proofs.SignalProofs3 Proofs.SignalProofs4 Proofs.SignalProofs5 Proofs.SignalProofs6 Proofs.SignalProofs7 Proofs.SignalProofs8 Proofs.SignalProofs9 Proofs.Selection Proofs.MAProofs.
 Open Scope Z_scope.
 
 Section C06.
@@ -176,6 +176,21 @@ Theorem C06_coppock_pivot (cfg : cop_cfg) (c0 : candle (N := NumR)) cs c : cop_v
     let L := Z.to_nat (cc_left cfg + cc_right cfg + 1) in let r := Z.to_nat (cc_right cfg) in
     a_sub (if Nat.eqb (argbest flt h L) r then a_buy_all else ANone) (if Nat.eqb (argbest fgt h L) r then a_buy_all else ANone).
 Proof. exact (coppock_pivot_signal_correct cfg c0 cs c). Qed.
+(** Aroon #2 (edge): +1 exactly when Aroon-up is 1 (the newest candle sets the highest high of the window), -1 exactly when
+    Aroon-down is 1 - in every state with a positive period *)
+Theorem C06_aroon_edge (s : aroon_st (N := NumR)) (k : candle (N := NumR)) : 0 < ar_period s ->
+  let r := snd (aroon_next s k) in
+  nth 1 (sigs r) ANone = a_from_i8 (b2z (feq (vals r 0) f1) - b2z (feq (vals r 1) f1)).
+Proof. exact (aroon_edge_signal s k). Qed.
+(** PivotReversalStrategy: for every stream that begins with the construction candle the signal is the documented rule on
+    definitional quantities of the whole history: [up_piv]/[lo_piv] (the bar [right] bars back carries the highest high / lowest
+    low of the last left+right+1 bars, ties to the newer bar; never on the first bar), the latched prices [prs_hprice]/[prs_lprice]
+    (high / low of that bar at the most recent pivot; 0 before the first one):
+      signal = sign( [lo_piv or low >= latched low] - [up_piv or high <= latched high] ) *)
+Theorem C06_pivot_reversal_strategy lft right (c0 : candle (N := NumR)) s0 cs c :
+  1 <= lft -> 1 <= right -> lft + right <= pmax - 2 -> prs_init lft right c0 = Ok s0 ->
+  sigs (snd (prs_next (steps prs_next s0 (c0 :: cs)) c)) = [prs_signal lft right c0 (rev ((c0 :: cs) ++ [c]))].
+Proof. intros Hl Hr Hlr Hi. exact (prs_signal_correct lft right c0 Hl Hr Hlr s0 Hi cs c). Qed.
 End C06.
 
 (** signals that are a function of the values returned at the same step: the documented rule holds in EVERY state
